@@ -725,7 +725,13 @@ func tblRun(c *Ctx, tc tblCase, tape *simrt.Tape) ([]tblV, int) {
 	if c.Mode == "damage" {
 		return tblDamage(c, tc, tape)
 	}
-	return tblControl(c, tc, tape)
+	var vs []tblV
+	var evals int
+	if msg := libPanic(func() { vs, evals = tblControl(c, tc, tape) }); msg != "" {
+		simrt.Deactivate()
+		return append(vs, tblV{"panic|" + normErr(errors.New(msg)), "writing or reading a valid table panicked inside the library: " + msg}), evals
+	}
+	return vs, evals
 }
 
 func tblShrinks(c tblCase) []tblCase {
